@@ -51,6 +51,11 @@ CHECKS = {
         text="Histories of Subscribe/StopSubscribe datagrams (several entries per message, reboot evidence in the same message or on the other channel, listener decisions drawn per call), announcer stop/start, (un)announce and connection loss are executed on a virtual-time loop; at every idle point each listener call must have a cause in the history and each model event its call (alternation, no unsubscribe after a rejection, live exactly from acceptance to TTL/Stop/reboot/service stop), and every positive SubscribeAck on the wire must refer to a subscription still recorded.",
         note="Trusted: virtual loop, wire.py, reference model. A Subscribe within RES of its predecessor's deadline is simultaneous (both outcomes accepted). API calls respect their preconditions.",
     ),
+    "C09": dict(
+        technique="model-based property testing on a deterministic virtual-time event loop: bounded-exhaustive enumeration + Hypothesis histories with timer-relative step placement, reference deadline model explaining every callback (small DFS where two outcomes are allowed)",
+        text="Histories of add/refresh/stop/remove-all/re-add with TTLs from {1,2,3,0xFFFFFE,infinite} are executed on TimedStore directly, as offer datagrams through ServiceDiscover and as Subscribe datagrams through ServiceInstance, with refreshes placed at -4RES, -RES/4, +RES/4, +4RES and halfway around the pending expiry, and the clock then run past 0xFFFFFF s; every expiry/stop notification must be predicted by the reference model (exactly one, within RES of last-refresh+ttl, none after removal, none for infinite entries, none from a predecessor's timer).",
+        note="Trusted: virtual loop, reference model. Refresh within RES of the deadline: both outcomes accepted, as the statement says.",
+    ),
 }
 ALL = ["C%02d" % i for i in range(1, 21)]
 NOT_APPLICABLE = {p: "check not built yet in this revision (in progress); the technique applies" for p in ALL if p not in CHECKS}
